@@ -8,7 +8,7 @@ use reval::prelude::*;
 use serde_json::json;
 use std::process::Command;
 
-pub const CONSTRUCTS: [&str; 20] = [
+pub const CONSTRUCTS: [&str; 28] = [
     "unary-chain",
     "not-chain",
     "paren-nest",
@@ -30,6 +30,14 @@ pub const CONSTRUCTS: [&str; 20] = [
     "long-number",
     "long-comment-run",
     "long-metadata",
+    "cast-dec-long-zeros",
+    "cast-dec-long-underscores",
+    "cast-dec-long-fraction",
+    "cast-int-long-zeros",
+    "cast-float-long-digits",
+    "cast-datetime-long-fraction",
+    "long-decimal-literal",
+    "long-int-literal",
 ];
 
 /// contexts covering every grammar production; `{}` is filled with a deep sub-expression.  These
@@ -90,6 +98,15 @@ pub fn text_for(construct: &str, n: usize) -> String {
         "long-comment-run" => format!("x{}+ y", " // c\n".repeat(n)),
         "long-metadata" => format!("{}x", (0..n).map(|i| format!("@k{}: i1;\n", i % 7)).collect::<String>()),
         "access-chain-bad-index" => format!("m{}.99999999999999999999", ".a".repeat(n)),
+        // casts of very long strings (flat text, long data): the digits / padding are in a literal
+        "cast-dec-long-zeros" => format!("dec(\"{}1\")", "0".repeat(n)),
+        "cast-dec-long-underscores" => format!("dec(\"1{}\")", "_".repeat(n)),
+        "cast-dec-long-fraction" => format!("dec(\"0.{}1\")", "0".repeat(n)),
+        "cast-int-long-zeros" => format!("int(\"{}1\")", "0".repeat(n)),
+        "cast-float-long-digits" => format!("float(\"{}.{}e-5\")", "9".repeat(n), "1".repeat(n)),
+        "cast-datetime-long-fraction" => format!("datetime(\"2015-07-30T03:26:13.{}Z\")", "1".repeat(n)),
+        "long-decimal-literal" => format!("d{}1.5", "0".repeat(n)),
+        "long-int-literal" => format!("i{}1", "0".repeat(n)),
         // a flat text whose evaluation moves a value nested n deep from one user function to another
         "deep-fn-value" => format!("audit(load(i{n}))"),
         "deep-fn-result" => format!("load(i{n})"),
